@@ -77,6 +77,9 @@ enum Response {
     /// a non-canonical signature: S replaced by S + L (accepted by lax verifiers only)
     NonCanonicalS,
     Garbage(Vec<u8>),
+    /// a perfectly valid answer, but for another identity: claims key `j` and signs with `j`
+    /// (combined with a header naming K this must authenticate j, never K)
+    HonestAsOther(u8),
 }
 
 #[derive(Debug, Clone, Serialize, Deserialize, PartialEq)]
@@ -125,6 +128,7 @@ fn strategy() -> impl Strategy<Value = Case> {
         1 => Just(Response::TwoFrames),
         1 => Just(Response::NonCanonicalS),
         1 => proptest::collection::vec(any::<u8>(), 0..120).prop_map(Response::Garbage),
+        2 => (0u8..4).prop_map(Response::HonestAsOther),
     ];
     let decision = prop_oneof![3 => Just(Decision::Allow), 1 => Just(Decision::Deny(None)), 1 => "[a-z ]{0,20}".prop_map(|s| Decision::Deny(Some(s)))];
     (0u8..4, header, km, response, decision, any::<[u8; 8]>()).prop_map(|(k, header, km, response, decision, session)| Case { k, header, km, response, decision, session })
@@ -301,6 +305,10 @@ async fn client_script(mut end: ClientEnd, c: Case, prev_challenge: [u8; 16]) ->
             Response::TwoFrames => {
                 send_auth(&end, k_pub, honest_sig, &mut view);
                 end.send(memrelay::encode_ping([7; 8]));
+            }
+            Response::HonestAsOther(j) => {
+                let other = signing_key(*j);
+                send_auth(&end, other.verifying_key().to_bytes(), other.sign(&honest_msg).to_bytes(), &mut view)
             }
             Response::Garbage(g) => {
                 let mut f = vec![memrelay::T_CLIENT_AUTH];
